@@ -400,21 +400,67 @@ RECV_RULE = ("declarations: the generated corpus (every single field option, pai
              "parser. A case is one (declaration, input) pair; all are distinct.")
 
 
-def recv_plan(run, selftest, focuses, classes, what):
+RECV_TRACE_CFG = """SPECIFICATION TraceSpec
+CONSTANTS
+  ForeignPaths = {"doc", "keep", "tool::x"}
+  EMIT = FALSE
+POSTCONDITION TraceAccepted
+CHECK_DEADLOCK FALSE
+"""
+
+
+def receiver_trace_stage(run, selftest, events):
+    """impl -> spec: random inputs, longer and split into more attributes than the exhaustive bounds, are fed to the real
+    derived receivers; every recorded execution must be what Receiver.tla does on that input and satisfy ReceiverProps."""
+    nd = gen_corpus(run, "all")
+    run.build()
+    sims = run.path("sims_all.ndjson")
+    run.vh("simtable", run.path("names_all.json"), sims)
+    tr = run.path("recv_trace.ndjson")
+    rr = run.vh("record", nd, vlib.seed() + 7, events, tr, binary=VHC)
+    env = {"CORPUS": nd, "SIMS": sims, "SUGGEST": "on", "TRACE": tr}
+    res = run.tlc("Trace_Receiver", RECV_TRACE_CFG, "recv_trace", workers=1, deque=True, env=env, timeout=3000)
+    if not res["ok"]:
+        tail = run.tlc_tail(res, 14)
+        run.violation("trace:receiver", "a recorded execution of a derived receiver is not the behaviour Receiver.tla / ReceiverProps.tla allow: " + tail[-1500:],
+                      {"module": "receiver-trace", "tlc_tail": tail, "record_cmd": "vhc record <corpus> %d %d" % (vlib.seed() + 7, events)})
+    else:
+        run.traces += rr["runs"]
+        run.trace_events += rr["events"]
+    if selftest:
+        bad = run.path("recv_trace_bad.ndjson")
+
+        def mut(ev):
+            for e in ev:
+                if not e["ok"] and len(e["leaves"]) >= 2:
+                    e["leaves"].pop()
+                    return
+            raise ToolError("selftest: no failing event with two leaves")
+        vlib.corrupt_ndjson(tr, bad, mut)
+        env2 = dict(env, TRACE=bad)
+        res = run.tlc("Trace_Receiver", RECV_TRACE_CFG, "recv_trace_bad", workers=1, deque=True, env=env2, expect_fail=True, timeout=3000)
+        if res["ok"]:
+            raise ToolError("selftest: a corrupted receiver trace (one error leaf dropped) was accepted")
+        run.notes.append("selftest trace-corruption (one observed error leaf dropped): rejected")
+
+
+def recv_plan(run, selftest, focuses, classes, what, trace_events=0):
     for fo in focuses:
         receiver_stage(run, fo, classes, selftest and fo == focuses[0], what)
+    if trace_events:
+        receiver_trace_stage(run, selftest, trace_events)
     run.assumptions = RECV_ASSUME
     return run.finish("model_checking", RECV_RULE)
 
 
 @plan("C01")
 def c01(run, selftest=True):
-    return recv_plan(run, selftest, ["clean", "struct"], {"value"}, "C01 field mapping")
+    return recv_plan(run, selftest, ["clean", "struct"], {"value"}, "C01 field mapping", trace_events=150 if run.tier == "quick" else 4000)
 
 
 @plan("C02")
 def c02(run, selftest=True):
-    return recv_plan(run, selftest, ["struct", "enum"], {"leaves"}, "C02 one error per mistake")
+    return recv_plan(run, selftest, ["struct", "enum"], {"leaves"}, "C02 one error per mistake", trace_events=150 if run.tier == "quick" else 4000)
 
 
 @plan("C03")
@@ -426,7 +472,8 @@ def c03(run, selftest=True):
 
 @plan("C08")
 def c08(run, selftest=True):
-    return recv_plan(run, selftest, ["element"], {"value", "leaves", "fwd", "panic"}, "C08 attribute selection / merging / forwarding")
+    return recv_plan(run, selftest, ["element"], {"value", "leaves", "fwd", "panic"}, "C08 attribute selection / merging / forwarding",
+                     trace_events=150 if run.tier == "quick" else 4000)
 
 
 @plan("C09")
